@@ -1,10 +1,10 @@
-\* exhaustive run of the next size up (the model does not depend on nilEmpty; "lazy" has every stimulus)
+\* exhaustive run with one more key (quick: 3 keys x 3 values)
 CONSTANTS
   MapNK = 4
   SetNK = 4
-  Vals = {"", "a", "b"}
+  Vals = {"", "a"}
   Flavours = {"map", "set"}
-  NilEnc = {TRUE}
-  Modes = {"lazy"}
+  EmptyEncs = {"empty", "nil"}
+  Modes = {"full", "lazy"}
 INVARIANTS TypeOK ObsOK
 PROPERTIES Steps
